@@ -354,6 +354,13 @@ def iv_shift_l(a: Iv, b: Iv) -> Iv:
 
 
 def iv_and(a: Iv, b: Iv) -> Iv:
+    if a.const and b.const and a.bounded and b.bounded and float(a.lo).is_integer() and float(b.lo).is_integer():
+        v = int(a.lo) & int(b.lo)
+        return Iv(v, v, a.prec and b.prec)
+    return _iv_and(a, b)
+
+
+def _iv_and(a: Iv, b: Iv) -> Iv:
     if b.const and b.lo >= 0:
         return Iv(0, b.lo if a.lo < 0 or a.hi > b.lo else a.hi, a.prec and b.prec) if not (a.lo >= 0 and a.hi <= b.lo and _is_mask(b.lo)) else a
     if a.const and a.lo >= 0:
@@ -369,6 +376,13 @@ def _is_mask(x: float) -> bool:
 
 
 def iv_or(a: Iv, b: Iv) -> Iv:
+    if a.const and b.const and a.bounded and b.bounded and float(a.lo).is_integer() and float(b.lo).is_integer():
+        v = int(a.lo) | int(b.lo)
+        return Iv(v, v, a.prec and b.prec)
+    return _iv_or(a, b)
+
+
+def _iv_or(a: Iv, b: Iv) -> Iv:
     if a.lo >= 0 and b.lo >= 0 and a.bounded and b.bounded:
         n = max(int(a.hi), int(b.hi)).bit_length()
         return Iv(max(a.lo, b.lo), (1 << n) - 1, a.prec and b.prec)
@@ -616,6 +630,17 @@ class Interp:
                 return self._const(c)
             # element of a folded constant table: join of all elements
             tbl = M.fold(e.value, fn.cls, fn.mod)
+            if isinstance(tbl, (list, tuple, bytes, dict)) and not isinstance(e.slice, ast.Slice):
+                iv_ = self.ev(e.slice, st, fn, depth)
+                if isinstance(iv_, Iv) and iv_.const and iv_.bounded:
+                    try:
+                        return self._const(tbl[int(iv_.lo)])
+                    except (IndexError, KeyError):
+                        self.raise_log.append((fn.qual, f"index {int(iv_.lo)} outside folded table {unparse(e.value)[:40]}"))
+                        return TOP
+                if isinstance(iv_, Iv) and iv_.bounded and not isinstance(tbl, dict) and 0 <= iv_.lo and iv_.hi < len(tbl) and all(isinstance(x, int) for x in tbl):
+                    part = tbl[int(iv_.lo): int(iv_.hi) + 1]
+                    return Iv(min(part), max(part))
             if isinstance(tbl, dict):
                 tbl = list(tbl.values())
             if isinstance(tbl, (list, tuple, bytes)) and tbl and all(isinstance(x, int) for x in tbl):
@@ -794,6 +819,9 @@ class Interp:
             return iv_and(x, y)
         if isinstance(op, ast.BitOr):
             return iv_or(x, y)
+        if isinstance(op, ast.BitXor) and x.const and y.const and x.bounded and y.bounded:
+            v_ = int(x.lo) ^ int(y.lo)
+            return Iv(v_, v_, x.prec and y.prec)
         if isinstance(op, ast.Div):
             if x.const and y.const and y.lo != 0 and x.bounded and y.bounded:
                 try:
@@ -820,8 +848,8 @@ class Interp:
             if k is None:
                 return None
             v = st.get(k)
-            if isinstance(v, Iv) and v.const and v.bounded:
-                return ("c", v.lo)
+            if isinstance(v, Iv) and v.const and v.bounded and float(v.lo).is_integer():
+                return ("c", int(v.lo))
             t = st.sym(k)
             if t is not None:
                 return t
@@ -844,8 +872,11 @@ class Interp:
             if op == "//" and b[0] == "c" and b[1] > 0 and a[0] == "//" and a[2][0] == "c" and a[2][1] > 0:
                 return ("//", a[1], ("c", a[2][1] * b[1]))  # floor(floor(x/c1)/c2) == floor(x/(c1*c2)) for positive constants
             if a[0] == "c" and b[0] == "c":
+                if not (isinstance(a[1], int) and isinstance(b[1], int)):
+                    return None
                 try:
-                    return ("c", {"+": a[1] + b[1], "-": a[1] - b[1], "*": a[1] * b[1], "//": a[1] // b[1], "%": a[1] % b[1], "|": a[1] | b[1], "&": a[1] & b[1]}[op])
+                    x_, y_ = a[1], b[1]
+                    return ("c", x_ + y_ if op == "+" else x_ - y_ if op == "-" else x_ * y_ if op == "*" else x_ // y_ if op == "//" else x_ % y_ if op == "%" else (x_ | y_) if op == "|" else (x_ & y_))
                 except ZeroDivisionError:
                     return None
             return (op, a, b)
@@ -1067,11 +1098,12 @@ class Interp:
                 return [(TOP, st)]
         # repo callee
         tg, how = self.R.callees(c, fn, count=False)
-        if how == "resolved" and tg and any(t.qual in self.stubs for t in tg):
+        if how == "resolved" and tg and any(t.qual in self.stubs or "*." + t.name in self.stubs for t in tg):
             recv0: AV | None = None
             if isinstance(fx, ast.Attribute):
                 recv0 = self.ev(fx.value, st, fn, depth)
-            return [(self.stubs[[t.qual for t in tg if t.qual in self.stubs][0]](args, kws, recv0), st)]
+            key0 = [t.qual if t.qual in self.stubs else "*." + t.name for t in tg if t.qual in self.stubs or "*." + t.name in self.stubs][0]
+            return [(self.stubs[key0](args, kws, recv0), st)]
         if how == "resolved" and tg and len(tg) == 1 and tg[0].qual in self.C.ret:
             return [(self.bounds_iv(self.C.ret[tg[0].qual]), st)]  # established summary (proved where the callee is analysed)
         if how == "resolved" and tg:
@@ -1706,7 +1738,25 @@ class Interp:
         return out
 
     def _loop(self, w: PathWalker, s: ast.While | ast.For, st: State, ex: Exits, f: Func, depth: int) -> list[State]:
-        """Coarse, sound loop treatment: havoc every variable assigned in the body, run the body once, exit on the negated condition."""
+        """Coarse, sound loop treatment: havoc every variable assigned in the body, run the body once, exit on the negated condition.
+        `for x in range(<constants>)` with a small trip count is unrolled exactly instead."""
+        if isinstance(s, ast.For) and isinstance(s.target, ast.Name) and isinstance(s.iter, ast.Call) and unparse(s.iter.func) == "range" and not s.orelse:
+            ra = [self.ev(a, st, f, depth) for a in s.iter.args]
+            if ra and all(isinstance(x, Iv) and x.const and x.bounded for x in ra) and len(ra) <= 2:
+                lo_, hi_ = (0, int(ra[0].lo)) if len(ra) == 1 else (int(ra[0].lo), int(ra[1].lo))
+                if hi_ - lo_ <= 64:
+                    cur = [st]
+                    done: list[State] = []
+                    for i_ in range(lo_, hi_):
+                        sub = Exits()
+                        nxt = w.block(s.body, [x.set(s.target.id, Iv(i_, i_)) for x in cur], sub)
+                        ex.returns += sub.returns
+                        ex.raises += sub.raises
+                        done += sub.breaks
+                        cur = self._cap(nxt + sub.continues)
+                        if not cur:
+                            break
+                    return self._cap(cur + done)
         keys = self._assigned_keys(s.body, f)
         d = dict(st.d)
         for k in list(d):
@@ -1767,13 +1817,17 @@ class Interp:
         for case in s.cases:
             pat = case.pattern
             ins = list(rest)
-            if isinstance(pat, ast.MatchValue):
-                pv = self.ev(pat.value, st, f, depth)
-                if isinstance(pv, Iv) and pv.const and isinstance(subj, Iv):
-                    if not (subj.lo <= pv.lo <= subj.hi):
+            alts = pat.patterns if isinstance(pat, ast.MatchOr) else [pat]
+            if all(isinstance(q, ast.MatchValue) for q in alts):
+                pvs = [self.ev(q.value, st, f, depth) for q in alts]
+                if all(isinstance(pv, Iv) and pv.const for pv in pvs) and isinstance(subj, Iv):
+                    hits = [pv for pv in pvs if subj.lo <= pv.lo <= subj.hi]
+                    if not hits:
                         ins = []
-                    elif k is not None:
-                        ins = [x.refine(k, pv) for x in ins]
+                    elif len(hits) == 1 and k is not None:
+                        ins = [x.refine(k, hits[0]) for x in ins]
+                    if subj.const and hits:
+                        rest = []  # a constant subject matches exactly one arm
             elif isinstance(pat, ast.MatchAs) and pat.pattern is None and case.guard is None:
                 exhaustive = True
             out += w.block(case.body, ins, ex)
